@@ -699,7 +699,7 @@ def columns_case(rng, fmt, ncols):
 def generate(ctx):
     rng = ctx.rng
     quick = ctx.tier == "quick"
-    reps = 1 if quick else 6
+    reps = 3 if quick else 18
 
     def emit(stratum, c):
         m = c["m"]
